@@ -306,6 +306,9 @@ func (cl *compiler) compileAssignStmt(assign *ast.AssignStmt) {
 			if len(cl.locals) == maxFuncLocals {
 				panic(cl.errorf(varname, "can't define %s: too many locals", varname))
 			}
+			if cl.isParamName(varname.String()) {
+				panic(cl.errorf(varname, "%s shadows a parameter, which is not allowed", varname))
+			}
 			id := len(cl.locals)
 			cl.locals[varname.String()] = id
 			cl.emit8(pickOp(typeIsInt(typ), opSetIntLocal, opSetLocal), id)
